@@ -711,7 +711,7 @@ def assign_configs(ctx, sp, pids, slots_for, prefer=None):
             want_fmt = rng.choice(fmts)
             cands = [c for c in rng.sample(pool, min(60, len(pool))) if c["cfg"]["fmt"] == want_fmt] or rng.sample(pool, 10)
             if prefer:
-                cands = [c for c in cands if prefer(c, rng)] or cands
+                cands = [c for c in cands if prefer(c, rng, prog)] or cands
             best, bestn = None, -1
             for c in cands:
                 d = cfg_dims(c)
